@@ -407,9 +407,31 @@ impl App {
                         print!("{}", printer.print_interpretation(&model));
                     }
                 }
+                if self.two_val {
+                    let printer = adf.print_dictionary();
+                    let (sender, receiver) = unbounded();
+                    adf.two_val_nogood_channel(self.heu.unwrap_or_default(), sender);
+                    for model in receiver.into_iter() {
+                        print!("{}", printer.print_interpretation(&model));
+                    }
+                }
                 if self.stable {
                     let printer = adf.print_dictionary();
                     for model in adf.stable() {
+                        print!("{}", printer.print_interpretation(&model));
+                    }
+                }
+
+                if self.stable_counting_a {
+                    let printer = adf.print_dictionary();
+                    for model in adf.stable_count_optimisation_heu_a() {
+                        print!("{}", printer.print_interpretation(&model));
+                    }
+                }
+
+                if self.stable_counting_b {
+                    let printer = adf.print_dictionary();
+                    for model in adf.stable_count_optimisation_heu_b() {
                         print!("{}", printer.print_interpretation(&model));
                     }
                 }
